@@ -21,10 +21,26 @@ struct State<T> {
     receivers: usize,
 }
 
+/// The lock and the condvar are not generic over `T` so that a timer callback
+/// (which must be 'static) can take the lock before notifying: a notification
+/// sent without the lock can be lost, because `Condvar::wait` has a scheduling
+/// point before it releases the mutex and registers the waiter.
 struct Chan<T> {
     cap: Option<usize>,
-    state: Mutex<State<T>>,
+    lock: Arc<Mutex<()>>,
     cv: Arc<Condvar>,
+    /// only accessed while `lock` is held
+    state: std::cell::UnsafeCell<State<T>>,
+}
+
+unsafe impl<T: Send> Send for Chan<T> {}
+unsafe impl<T: Send> Sync for Chan<T> {}
+
+impl<T> Chan<T> {
+    #[allow(clippy::mut_from_ref)]
+    fn st<'a>(&'a self, _g: &shuttle::sync::MutexGuard<'a, ()>) -> &'a mut State<T> {
+        unsafe { &mut *self.state.get() }
+    }
 }
 
 /// Global activity signal for `Select` (one per OS thread = per execution).
@@ -135,8 +151,9 @@ impl std::error::Error for RecvTimeoutError {}
 fn make<T>(cap: Option<usize>) -> (Sender<T>, Receiver<T>) {
     let ch = Arc::new(Chan {
         cap,
-        state: Mutex::new(State { queue: VecDeque::new(), taken: 0, put: 0, senders: 1, receivers: 1 }),
+        lock: Arc::new(Mutex::new(())),
         cv: Arc::new(Condvar::new()),
+        state: std::cell::UnsafeCell::new(State { queue: VecDeque::new(), taken: 0, put: 0, senders: 1, receivers: 1 }),
     });
     (Sender { ch: ch.clone() }, Receiver { ch })
 }
@@ -152,9 +169,10 @@ pub fn unbounded<T>() -> (Sender<T>, Receiver<T>) {
 impl<T> Sender<T> {
     pub fn send(&self, msg: T) -> Result<(), SendError<T>> {
         let ch = &self.ch;
-        let mut st = ch.state.lock().unwrap();
+        let mut g = ch.lock.lock().unwrap();
         // wait for room (a zero-capacity channel has one hand-off slot)
         loop {
+            let st = ch.st(&g);
             if st.receivers == 0 {
                 return Err(SendError(msg));
             }
@@ -166,18 +184,22 @@ impl<T> Sender<T> {
             if room {
                 break;
             }
-            st = ch.cv.wait(st).unwrap();
+            g = ch.cv.wait(g).unwrap();
         }
-        st.queue.push_back(msg);
-        st.put += 1;
-        let my_seq = st.put;
+        let my_seq = {
+            let st = ch.st(&g);
+            st.queue.push_back(msg);
+            st.put += 1;
+            st.put
+        };
         ch.cv.notify_all();
         if ch.cap == Some(0) {
             // rendezvous: the send completes when a receiver has taken the message
-            drop(st);
+            drop(g);
             signal_activity();
-            let mut st = ch.state.lock().unwrap();
+            let mut g = ch.lock.lock().unwrap();
             loop {
+                let st = ch.st(&g);
                 if st.taken >= my_seq {
                     return Ok(());
                 }
@@ -189,17 +211,18 @@ impl<T> Sender<T> {
                     }
                     return Ok(());
                 }
-                st = ch.cv.wait(st).unwrap();
+                g = ch.cv.wait(g).unwrap();
             }
         }
-        drop(st);
+        drop(g);
         signal_activity();
         Ok(())
     }
 
     pub fn try_send(&self, msg: T) -> Result<(), TrySendError<T>> {
         let ch = &self.ch;
-        let mut st = ch.state.lock().unwrap();
+        let g = ch.lock.lock().unwrap();
+        let st = ch.st(&g);
         if st.receivers == 0 {
             return Err(TrySendError::Disconnected(msg));
         }
@@ -214,23 +237,28 @@ impl<T> Sender<T> {
         st.queue.push_back(msg);
         st.put += 1;
         ch.cv.notify_all();
-        drop(st);
+        drop(g);
         signal_activity();
         Ok(())
     }
 
     pub fn is_empty(&self) -> bool {
-        self.ch.state.lock().unwrap().queue.is_empty()
+        let g = self.ch.lock.lock().unwrap();
+        self.ch.st(&g).queue.is_empty()
     }
 
     pub fn len(&self) -> usize {
-        self.ch.state.lock().unwrap().queue.len()
+        let g = self.ch.lock.lock().unwrap();
+        self.ch.st(&g).queue.len()
     }
 }
 
 impl<T> Clone for Sender<T> {
     fn clone(&self) -> Self {
-        self.ch.state.lock().unwrap().senders += 1;
+        {
+            let g = self.ch.lock.lock().unwrap();
+            self.ch.st(&g).senders += 1;
+        }
         Sender { ch: self.ch.clone() }
     }
 }
@@ -242,13 +270,15 @@ impl<T> Drop for Sender<T> {
         }
         if std::thread::panicking() {
             // never take a scheduling point while unwinding
-            if let Ok(mut st) = self.ch.state.try_lock() {
+            if let Ok(g) = self.ch.lock.try_lock() {
+                let st = self.ch.st(&g);
                 st.senders = st.senders.saturating_sub(1);
             }
             return;
         }
         let last = {
-            let mut st = self.ch.state.lock().unwrap();
+            let g = self.ch.lock.lock().unwrap();
+            let st = self.ch.st(&g);
             st.senders -= 1;
             let last = st.senders == 0;
             if last {
@@ -279,21 +309,23 @@ impl<T> Receiver<T> {
     }
 
     pub fn recv(&self) -> Result<T, RecvError> {
-        let mut st = self.ch.state.lock().unwrap();
+        let mut g = self.ch.lock.lock().unwrap();
         loop {
-            if let Some(m) = self.take(&mut st) {
+            let st = self.ch.st(&g);
+            if let Some(m) = self.take(st) {
                 return Ok(m);
             }
             if st.senders == 0 {
                 return Err(RecvError);
             }
-            st = self.ch.cv.wait(st).unwrap();
+            g = self.ch.cv.wait(g).unwrap();
         }
     }
 
     pub fn try_recv(&self) -> Result<T, TryRecvError> {
-        let mut st = self.ch.state.lock().unwrap();
-        if let Some(m) = self.take(&mut st) {
+        let g = self.ch.lock.lock().unwrap();
+        let st = self.ch.st(&g);
+        if let Some(m) = self.take(st) {
             return Ok(m);
         }
         if st.senders == 0 {
@@ -306,20 +338,21 @@ impl<T> Receiver<T> {
     pub fn recv_timeout(&self, timeout: Duration) -> Result<T, RecvTimeoutError> {
         let expired = Arc::new(AtomicBool::new(false));
         let e2 = expired.clone();
-        // Tasks only switch at scheduling points, and there is none between the
-        // receiver's check of `expired` and its `cv.wait`, so notifying without
-        // the channel lock cannot lose the wake-up.
+        // the callback takes the channel's lock before notifying (see `Chan`)
+        let lock = self.ch.lock.clone();
         let cv = self.ch.cv.clone();
         let timer = clock::register(
             timeout,
             Box::new(move || {
+                let _g = lock.lock().unwrap();
                 e2.store(true, Ordering::SeqCst);
                 cv.notify_all();
             }),
         );
-        let mut st = self.ch.state.lock().unwrap();
+        let mut g = self.ch.lock.lock().unwrap();
         let r = loop {
-            if let Some(m) = self.take(&mut st) {
+            let st = self.ch.st(&g);
+            if let Some(m) = self.take(st) {
                 break Ok(m);
             }
             if st.senders == 0 {
@@ -328,9 +361,9 @@ impl<T> Receiver<T> {
             if expired.load(Ordering::SeqCst) {
                 break Err(RecvTimeoutError::Timeout);
             }
-            st = self.ch.cv.wait(st).unwrap();
+            g = self.ch.cv.wait(g).unwrap();
         };
-        drop(st);
+        drop(g);
         clock::cancel(timer);
         r
     }
@@ -344,23 +377,29 @@ impl<T> Receiver<T> {
     }
 
     pub fn is_empty(&self) -> bool {
-        self.ch.state.lock().unwrap().queue.is_empty()
+        let g = self.ch.lock.lock().unwrap();
+        self.ch.st(&g).queue.is_empty()
     }
 
     pub fn len(&self) -> usize {
-        self.ch.state.lock().unwrap().queue.len()
+        let g = self.ch.lock.lock().unwrap();
+        self.ch.st(&g).queue.len()
     }
 
     /// readiness for `Select`: a message can be taken, or the channel is disconnected
     fn ready(&self) -> bool {
-        let st = self.ch.state.lock().unwrap();
+        let g = self.ch.lock.lock().unwrap();
+        let st = self.ch.st(&g);
         !st.queue.is_empty() || st.senders == 0
     }
 }
 
 impl<T> Clone for Receiver<T> {
     fn clone(&self) -> Self {
-        self.ch.state.lock().unwrap().receivers += 1;
+        {
+            let g = self.ch.lock.lock().unwrap();
+            self.ch.st(&g).receivers += 1;
+        }
         Receiver { ch: self.ch.clone() }
     }
 }
@@ -371,12 +410,14 @@ impl<T> Drop for Receiver<T> {
             return;
         }
         if std::thread::panicking() {
-            if let Ok(mut st) = self.ch.state.try_lock() {
+            if let Ok(g) = self.ch.lock.try_lock() {
+                let st = self.ch.st(&g);
                 st.receivers = st.receivers.saturating_sub(1);
             }
             return;
         }
-        let mut st = self.ch.state.lock().unwrap();
+        let g = self.ch.lock.lock().unwrap();
+        let st = self.ch.st(&g);
         st.receivers -= 1;
         if st.receivers == 0 {
             self.ch.cv.notify_all();
